@@ -12,7 +12,9 @@ open MosnVerif.Drive MosnVerif.Drive.Downstream MosnVerif.Model.Downstream MosnV
 
 def labelsFor (s : S) : List Label :=
   let ks := List.range s.streams.length
-  [Label.work, .perTryFire, .globalFire, .downReset .StreamConnectionTermination, .connClose, .terminate 418] ++
+  [Label.work, .perTryFire, .globalFire, .downReset .StreamConnectionTermination, .connClose, .terminate 418,
+   .terminateStale 0 419] ++
+  (ks.map (fun k => Label.terminateRaced 418 k true false)) ++
   (if s.failNext.length < 2 then [.poolFail .overflow, .poolFail .connfail] else []) ++
   (if s.hostsGone then [] else [.hostsGone]) ++
   ks.flatMap (fun k =>
@@ -34,6 +36,8 @@ def labelTok : Label → String
   | .downReset _ => "DR"
   | .connClose => "CC"
   | .terminate code => s!"TM{code}"
+  | .terminateStale _ code => s!"TS{code}"
+  | .terminateRaced code k d t => s!"TR{code}:{k}:{bs d}{bs t}"
 
 /-- extra per-state checks besides `inv`: a finished exchange has a classified outcome; a parked worker of a two-way
 request can be completed by the global timer -/
@@ -43,6 +47,11 @@ def stateOk (c : Cfg) (ar aq : Nat) (s : S) : Option String :=
   else if s.cleaned && outcome c s == .silent then some "silent-outcome"
   else if blocked s && !c.oneway && !(settle c fuel (step c s .globalFire)).cleaned then some "timeout-does-not-complete"
   else if blocked s && liveCount s.streams == 0 then some "parked-without-live-upstream"
+  else if (match s.resp with
+      | some r => (r.hasData && s.dTok != s.hTok) || (r.hasTrailers && s.tTok != s.hTok)
+      | none => false) then some "stored-response-of-two-answers"
+  else if s.gtGen > 1 then some "global-timer-armed-twice"
+  else if s.reqSent == false && s.gtGen != 0 then some "global-timer-armed-before-request-sent"
   else none
 
 structure Res where
